@@ -271,9 +271,16 @@ func (a *Application) translationHandler(trans translator.RequestTranslator) htt
 			pr.requestLogger.Warn("No endpoints available for model",
 				"model", pr.model,
 				"translator", trans.Name())
+			// the routing strategy tells "model not found" (404) from "model unavailable" (503)
+			status := http.StatusNotFound
+			if pr.profile != nil && pr.profile.RoutingDecision != nil &&
+				pr.profile.RoutingDecision.Action == ports.RoutingActionRejected &&
+				pr.profile.RoutingDecision.StatusCode >= http.StatusBadRequest {
+				status = pr.profile.RoutingDecision.StatusCode
+			}
 			a.writeTranslatorError(w, trans, pr,
 				fmt.Errorf("no healthy endpoints available for model: %s", pr.model),
-				http.StatusNotFound)
+				status)
 			a.recordTranslatorMetrics(trans, pr, constants.TranslatorModeTranslation, constants.FallbackReasonNoCompatibleEndpoints)
 			return
 		}
